@@ -665,6 +665,11 @@ func execUpord(op Op) []string {
 		}
 	}
 	L.SetGlobal("sink", L.NewFunction(func(*lua.LState) int { return 0 }))
+	// generated programs terminate: an instruction budget ends one that does not (a goroutine abandoned by the watchdog
+	// below would otherwise keep running — and allocating — for the rest of the check)
+	bctx, bstop := newBudgetCtxWithBackstop(20000000, 3*time.Minute)
+	defer bstop()
+	L.SetContext(bctx)
 	done := make(chan struct{})
 	go func() {
 		defer close(done)
